@@ -276,26 +276,21 @@ func (item *itemToWatch) checkForChanges() ([]fsnotify.Event, error) {
 		return nil, nil
 	}
 
-	leftIsIn := false
-	left, right := item.left.entries, item.right.entries
-	if len(right) > len(left) {
-		left, right = right, left
-		leftIsIn = true
-	}
-
 	var evs []fsnotify.Event
 
-	for name, fi1 := range left {
-		fi2 := right[name]
-		fil, fir := fi1, fi2
-		if leftIsIn {
-			fil, fir = fir, fil
-		}
-		op := checkChange(fil, fir)
+	// Entries that were there before: changed or removed.
+	for name, fil := range item.left.entries {
+		op := checkChange(fil, item.right.entries[name])
 		if op != 0 {
 			evs = append(evs, fsnotify.Event{Op: op, Name: filepath.Join(item.filename, name)})
 		}
-
+	}
+	// Entries that are new. Looking only at the larger of the two listings
+	// would miss them whenever as many entries went as came.
+	for name, fir := range item.right.entries {
+		if _, ok := item.left.entries[name]; !ok {
+			evs = append(evs, fsnotify.Event{Op: checkChange(nil, fir), Name: filepath.Join(item.filename, name)})
+		}
 	}
 
 	return evs, nil
